@@ -59,7 +59,15 @@ func mainEngine(o *Out, scnFile string, seed int64, count int, modes string, var
 	emit := func(cfg EngineCfg, src string, exp []any, evs []Event) {
 		id++
 		cj := cfg.toJSON()
-		o.WriteScenario(id, "engine", src, cj, exp, evs)
+		agree := true
+		if id%3 == 0 { // every third scenario is also executed through (*Flow).Run
+			if src == "tlc" {
+				agree = flowRunAgrees(cfg, func() Script { return scriptFromHistory(exp) }, evs)
+			} else {
+				agree = flowRunAgrees(cfg, func() Script { return scriptForGenerated(cfg) }, evs)
+			}
+		}
+		o.WriteScenarioX(id, "engine", src, cj, exp, evs, agree)
 	}
 	if rp := opts["replay"]; rp != "" {
 		// re-execute recorded scenarios (same configuration, same script) on the current tree
